@@ -33,12 +33,20 @@ from .c01 import _eq
 
 M_SRC = '''
 from dataclasses import dataclass, field
-from enum import Enum
+from enum import Enum, IntEnum
 from typing import Optional, Any
 
 
 class Color(Enum):
     RED = "red"
+
+
+class Prio(IntEnum):
+    HIGH = 2
+
+
+class Tag(str, Enum):
+    A = "a"
 
 
 class Outer:
@@ -106,7 +114,7 @@ def to_real(v):
         return {"float-inf": math.inf, "decimal": Decimal("1.50"), "qname": QName("urn:x-y", "q"), "xmldate": XmlDate(2020, 2, 29),
                 "xmlduration": XmlDuration("P1D"), "pydate": datetime.date(2020, 1, 2)}[v["tag"]]
     if t == "enum":
-        return {"Color": m.Color.RED, "Shade": m.Outer.Shade.DARK, "Tint": m.Outer.Mid.Tint.PALE}[v["home"]["path"][-1]]
+        return {"Color": m.Color.RED, "Shade": m.Outer.Shade.DARK, "Tint": m.Outer.Mid.Tint.PALE, "Prio": m.Prio.HIGH, "Tag": m.Tag.A}[v["home"]["path"][-1]]
     if t == "map":
         return {to_real(k): to_real(x) for k, x in v["items"]}
     if t == "seq":
